@@ -308,4 +308,95 @@ def Obs.ok {S : Type} (sent : List (Int × S)) : Obs S → Prop
   | .delivered _ (.ok none) before after => after = before
   | .delivered _ (.error _) before after => after = before ∨ after = none
 
+/-! ### the sender's builder and free list
+
+`Storage::new_builder` (since the repair of D25): pop a snapshot from the free list (or take
+`Snap::default()`), overwrite it with a copy of the newest stored snapshot if there is one, and
+`recycle` it.  `set_delta_tick` moves the snapshots it drains to the free list.  The receiving
+`Storage` also has a free list, but every snapshot it takes from there is overwritten completely
+(`read_with_delta` and `build_from_raw` clear first), so it has no observable effect and is not
+modelled. -/
+
+/-- what the application does with the builder: `I` is what it adds between `new_builder()` and
+`finish()` -/
+structure BuildOps (S I : Type) where
+  /-- `Snap::default()` -/
+  default : S
+  /-- `seed.recycle()`, the application's `add_item` calls, `finish()`. `panic` = `recycle` or
+  `add_item` panics; `error` = a `BuilderError` (the server would not send anything) -/
+  build : S → I → Outcome (Except String S)
+
+/-- the snapshots `set_delta_tick(v)` drains, in the order they are pushed to the free list -/
+def Storage.drainedBy {S : Type} (st : Storage S) (v : Int) : List S :=
+  if v < 0 then [] else (st.snaps.drop (keepFrom st.snaps v).length).map (·.snap)
+
+/-- both sides, the channels, and the sender's free list (last element = top of the stack) -/
+structure SysB (S : Type) where
+  sys : Sys S := {}
+  free : List S := []
+
+inductive EvB (S I : Type) where
+  /-- the server builds a snapshot from `items` with `new_builder()` and sends it -/
+  | sendItems (tick : Int) (items : I)
+  /-- any other event (a `send` of a ready-made snapshot is not used here) -/
+  | other (e : Ev S)
+
+/-- the snapshot `new_builder()` recycles -/
+def SysB.seed {S I : Type} (b : BuildOps S I) (y : SysB S) : S :=
+  match y.sys.sender.snaps.head? with
+  | some newest => newest.snap
+  | none => y.free.getLast?.getD b.default
+
+inductive ObsB (S : Type) where
+  | obs (o : Obs S)
+  /-- the builder refused an item: nothing was sent -/
+  | builderError (e : String)
+
+def SysB.step {S D I : Type} (ops : Ops S D) (b : BuildOps S I) (y : SysB S) :
+    EvB S I → Outcome (SysB S × ObsB S)
+  | .sendItems tick items =>
+    match b.build (y.seed b) items with
+    | .panic s => .panic s
+    | .ok (.error e) => .ok ({ y with free := y.free.dropLast }, .builderError e)
+    | .ok (.ok snap) =>
+      match y.sys.step ops (.send tick snap) with
+      | .panic s => .panic s
+      | .ok (sys', o) => .ok ({ sys := sys', free := y.free.dropLast }, .obs o)
+  | .other e =>
+    let drained : List S :=
+      match e with
+      | .deliverAck j =>
+        match y.sys.acks[j]? with
+        | some v => y.sys.sender.drainedBy v
+        | none => []
+      | .forgedAck v => y.sys.sender.drainedBy v
+      | _ => []
+    match y.sys.step ops e with
+    | .panic s => .panic s
+    | .ok (sys', o) => .ok ({ sys := sys', free := y.free ++ drained }, .obs o)
+
+def SysB.run {S D I : Type} (ops : Ops S D) (b : BuildOps S I) (y : SysB S) :
+    List (EvB S I) → Outcome (SysB S × List (ObsB S))
+  | [] => .ok (y, [])
+  | e :: es =>
+    match y.step ops b e with
+    | .panic s => .panic s
+    | .ok (y', o) =>
+      match SysB.run ops b y' es with
+      | .panic s => .panic s
+      | .ok (y'', os) => .ok (y'', o :: os)
+
+/-- `sendsOk` for histories with builder events: the ticks of all snapshots the sender builds (or
+tries to build) are `i32`s and strictly increasing -/
+def sendsOkB {S I : Type} : Option Int → List (EvB S I) → Prop
+  | _, [] => True
+  | last, .sendItems t _ :: rest => inI32 t ∧ (∀ l, last = some l → l < t) ∧ sendsOkB (some t) rest
+  | last, .other (.send t _) :: rest => inI32 t ∧ (∀ l, last = some l → l < t) ∧ sendsOkB (some t) rest
+  | last, .other _ :: rest => sendsOkB last rest
+
+/-- the C13 verdict on an observation of `SysB` -/
+def ObsB.ok {S : Type} (sent : List (Int × S)) : ObsB S → Prop
+  | .obs o => o.ok sent
+  | .builderError _ => True
+
 end Tw.SnapMgr
